@@ -278,6 +278,27 @@ def sweep_names(quick):
             yield {"sweep": "names", "family": fam, "model": m}
 
 
+def sweep_blanknames(quick):
+    """a directory entry whose 16-byte name is blank is an entry like any other: blank names at every level (sample, partial,
+    patch, performance, volume), one level at a time, two at a time and all together; judged by content only"""
+    levels = ("sample", "partial", "patch", "performance", "volume")
+    sets = [(l,) for l in levels] + list(itertools.combinations(levels, 2)) + [levels]
+    for blank in sets:
+        for nblank_samples in ((1, 2) if "sample" in blank else (0,)):
+            samples = {i: {"name": "" if i < nblank_samples else f"SMP{i}", "chain": [2 + 2 * i, 3 + 2 * i][::-1] if i == 1 else [2 + 2 * i],
+                           "points": [0, 0, 100 + 50 * i, 0, 20], "mode": 0, "freq": i, "seq": 30 + i} for i in range(3)}
+            m = simple_model(samples)
+            if "partial" in blank:
+                m["partials"][0]["name"] = ""
+            if "patch" in blank:
+                m["patches"][0]["name"] = ""
+            if "performance" in blank:
+                m["performances"][0]["name"] = ""
+            if "volume" in blank:
+                m["volumes"][0]["name"] = ""
+            yield {"sweep": "blanknames", "blank": list(blank), "blank_samples": nblank_samples, "model": m}
+
+
 def norm_model(m):
     """JSON round trip turns int keys into strings: normalise back."""
     m = copy.deepcopy(m)
@@ -290,6 +311,8 @@ def nontrivial(case):
     m = case["model"]
     if case["sweep"] in ("topology", "slots", "highslots"):
         return bool(case.get("flips"))
+    if case["sweep"] == "blanknames":
+        return True
     for s in m["samples"].values():
         ch = s["chain"]
         if ch != sorted(ch) or s.get("cluster_top", 0) or s.get("mode", 0) in (5, 6):
@@ -304,14 +327,14 @@ def run_case(case):
     model = norm_model(case["model"])
     img, layout = R.build_roland(model)
     expected = R.expected_exports(model)
-    res = tree.full_run(img, cpu_s=30.0, ls_paths=("",), again=case["sweep"] in ("topology", "slots", "names", "sharedchain", "window"))
+    res = tree.full_run(img, cpu_s=30.0, ls_paths=("",), again=case["sweep"] in ("topology", "slots", "names", "blanknames", "sharedchain", "window"))
     if res["status"] == "hang":
         return False, "hang", {"observed": "non-termination (cpu budget)"}
     if res.get("again"):
         return False, "second-export-differs", res["again"]
     if res["status"] == "exc":
         return False, "raised:" + exc_sig(res["exc"]), {"observed": repr(res["exc"])[:300], "files": sorted(res["files"])[:5]}
-    if case["sweep"] == "names":
+    if case["sweep"] in ("names", "blanknames"):
         from mcv.ref import riff
         got = []
         for p_, b_ in res["files"].items():
@@ -347,7 +370,7 @@ class Check(CheckBase):
             "samples per partial, unreferenced sample, orphan performance; (slots) every assignment of a partial's four sample "
             "slots over {unused, 3 samples}, sparse and completely filled partial / patch / performance lists incl. the last slot; (fatheader) "
             "free-cluster count word x FAT version x chain length 1,2,4 x order; (highslots) items in the highest / middle slots of each directory area (performance 511, patch 1023, partial 4095, sample 8191), orphan performances behind free directory slots (ID-area count = highest slot + 1, and = number of performances); (sharedchain) two samples in one chain: 6 chain orders x 6 offset pairs x same partial / other performance; (names) 11 families (incl. two / three distinct samples with one name) of special name shapes x "
-            "3 volume/performance names, judged by content only; the window, topology, slots, names and sharedchain cases export "
+            "3 volume/performance names, judged by content only; (blanknames) blank 16-byte names at every level (sample x1/x2, partial, patch, performance, volume) one / two at a time and all together, judged by content; the window, topology, slots, names and sharedchain cases export "
             "twice from one image object and the second export must equal the first. non-trivial = permuted chain, cluster_top>0, "
             "reverse mode, window ending on a cluster boundary, or a flipped edge")
     assumptions = ["independent S-7xx writer (mcv/gen/roland.py) and RIFF walker are correct",
@@ -355,7 +378,7 @@ class Check(CheckBase):
 
     def shards(self):
         cases = []
-        for sw in (sweep_window, sweep_fine, sweep_header, sweep_fat_header, sweep_endmarks, sweep_chains, sweep_topology, sweep_slots, sweep_names, sweep_shared_chain, sweep_high_slots):
+        for sw in (sweep_window, sweep_fine, sweep_header, sweep_fat_header, sweep_endmarks, sweep_chains, sweep_topology, sweep_slots, sweep_names, sweep_blanknames, sweep_shared_chain, sweep_high_slots):
             cases.extend(sw(self.quick))
         return self.chunk(cases, 6 if self.quick else 20)
 
